@@ -115,6 +115,8 @@ structure Inv (p : Params) (c : Cfg) : Prop where
   g8 : p.mode = .fixed → ∀ i, (c.ws i).pc ≠ .arm
   /-- a worker whose callback raised has left `run` -/
   g9 : ∀ i, (c.ws i).crashed = true → (c.ws i).pc = .done
+  /-- the second controller is idle: the controller calls do not overlap (the property's quantifier) -/
+  g10 : c.c2.cpc = .done
   b : atBoundary c → lastOk p c
 
 
@@ -142,10 +144,10 @@ structure WStep (p : Params) (w w' : Worker) : Prop where
 
 theorem inv_setW {p : Params} {c : Cfg} (i : Nat) (w' : Worker) (h : Inv p c) (hlt : i < c.nw)
     (s : WStep p (c.ws i) w') : Inv p (setW c i w') := by
-  obtain ⟨hctl, g1, g2, g3, g4, g5, g5', g7, g8, g9, b⟩ := h
+  obtain ⟨hctl, g1, g2, g3, g4, g5, g5', g7, g8, g9, g10, b⟩ := h
   obtain ⟨act, ne, ne', nd, sr, aft, lp, rt, fx, cr⟩ := s
   have g1i := g1 i; have g2i := g2 i; have g3i := g3 i; have g4i := g4 i
-  refine ⟨ctlInv_setW i _ act ne ne' nd hctl, ?_, ?_, ?_, ?_, ?_, ?_, ?_, ?_, ?_, ?_⟩
+  refine ⟨ctlInv_setW i _ act ne ne' nd hctl, ?_, ?_, ?_, ?_, ?_, ?_, ?_, ?_, ?_, g10, ?_⟩
   all_goals simp only [setW, atBoundary, lastOk, Cur] at g1 g2 g3 g4 g5 g5' g7 g8 g9 b g1i g2i g3i g4i ⊢
   · grind
   · intro j; by_cases hj : j = i
@@ -185,24 +187,26 @@ def Glob (p : Params) (c : Cfg) : Prop :=
   (∀ k, c.thread = some k → k < c.nw) ∧
   (∀ k, c.thread = some k → (c.ws k).stopRet = false) ∧
   (p.mode = .fixed → ∀ i, (c.ws i).pc ≠ .arm) ∧
-  (∀ i, (c.ws i).crashed = true → (c.ws i).pc = .done)
+  (∀ i, (c.ws i).crashed = true → (c.ws i).pc = .done) ∧
+  c.c2.cpc = .done
 
 theorem Inv.glob {p : Params} {c : Cfg} (h : Inv p c) : Glob p c :=
-  ⟨h.g1, h.g2, h.g3, h.g4, h.g5, h.g5', h.g7, h.g8, h.g9⟩
+  ⟨h.g1, h.g2, h.g3, h.g4, h.g5, h.g5', h.g7, h.g8, h.g9, h.g10⟩
 
 theorem Inv.ofGlob {p : Params} {c : Cfg} (G : Glob p c) (hctl : ctlInv p c)
     (hb : atBoundary c → lastOk p c) : Inv p c := by
-  obtain ⟨g1, g2, g3, g4, g5, g5', g7, g8, g9⟩ := G
-  exact ⟨hctl, g1, g2, g3, g4, g5, g5', g7, g8, g9, hb⟩
+  obtain ⟨g1, g2, g3, g4, g5, g5', g7, g8, g9, g10⟩ := G
+  exact ⟨hctl, g1, g2, g3, g4, g5, g5', g7, g8, g9, g10, hb⟩
 
 theorem glob_of_same {p : Params} {c c' : Cfg} (G : Glob p c)
-    (h1 : c'.thread = c.thread) (h2 : c'.ws = c.ws) (h3 : c'.nw = c.nw) : Glob p c' := by
-  simp only [Glob, h1, h2, h3]; exact G
+    (h1 : c'.thread = c.thread) (h2 : c'.ws = c.ws) (h3 : c'.nw = c.nw)
+    (h4 : c'.c2 = c.c2 := by rfl) : Glob p c' := by
+  simp only [Glob, h1, h2, h3, h4]; exact G
 
 theorem inv_of_same {p : Params} {c c' : Cfg} (G : Glob p c)
     (h1 : c'.thread = c.thread) (h2 : c'.ws = c.ws) (h3 : c'.nw = c.nw)
-    (hctl : ctlInv p c') (hb : atBoundary c' → lastOk p c') : Inv p c' :=
-  Inv.ofGlob (glob_of_same G h1 h2 h3) hctl hb
+    (hctl : ctlInv p c') (hb : atBoundary c' → lastOk p c') (h4 : c'.c2 = c.c2 := by rfl) : Inv p c' :=
+  Inv.ofGlob (glob_of_same G h1 h2 h3 h4) hctl hb
 
 theorem lastOk_congr {p : Params} {c c' : Cfg} (h1 : c'.thread = c.thread) (h2 : c'.ws = c.ws)
     (h3 : c'.lastRet = c.lastRet) : lastOk p c' ↔ lastOk p c := by
@@ -215,7 +219,7 @@ theorem inv_retTop {p : Params} {c : Cfg} (G : Glob p c) (hc : c.cancelled = non
   unfold retTop enter
   split
   all_goals
-    refine @inv_of_same p c _ G rfl rfl rfl ?_ ?_
+    refine @inv_of_same p c _ G rfl rfl rfl ?_ ?_ rfl
     · simp only [ctlInv, InStart, InStop, Cur] at *; grind
     · intro _; exact (lastOk_congr rfl rfl rfl).mpr hl
 
@@ -233,10 +237,10 @@ theorem glob_mark {p : Params} {c : Cfg} (G : Glob p c) (k : Nat) (ht : c.thread
     (h1 : (c.ws k).stopRet = false) (h2 : ¬ Act p (c.ws k)) (h3 : (c.ws k).pc ≠ .created)
     (h4 : p.daemon = false → (c.ws k).pc = .done) :
     Glob p { setW c k { c.ws k with stopRet := true } with cancelled := none } := by
-  obtain ⟨g1, g2, g3, g4, g5, g5', g7, g8, g9⟩ := G
+  obtain ⟨g1, g2, g3, g4, g5, g5', g7, g8, g9, g10⟩ := G
   have g3k := g3 k h1
   simp only [Glob, setW, Act] at *
-  refine ⟨?_, ?_, ?_, ?_, ?_, ?_, ?_, ?_, ?_⟩
+  refine ⟨?_, ?_, ?_, ?_, ?_, ?_, ?_, ?_, ?_, g10⟩
   · grind
   · intro j; by_cases hj : j = k
     · subst hj; simp only [if_true]; grind
@@ -260,7 +264,7 @@ theorem inv_retStop {p : Params} {c : Cfg} (G : Glob p c) (hs : InStop c) (ht : 
   | none =>
     simp only []
     split
-    · refine @inv_of_same p c _ G rfl rfl rfl ?_ ?_
+    · refine @inv_of_same p c _ G rfl rfl rfl ?_ ?_ rfl
       · simp only [ctlInv, InStop] at *; grind
       · simp [atBoundary]
     · apply inv_retTop G hcan (by simp [ht])
@@ -278,15 +282,15 @@ theorem inv_retStop {p : Params} {c : Cfg} (G : Glob p c) (hs : InStop c) (ht : 
 
 /-- a controller line that touches neither `thread` nor any worker -/
 macro "pc_only" h:ident hctl:ident hpc:ident : tactic => `(tactic|
-  (refine @inv_of_same _ _ _ (Inv.glob $h) rfl rfl rfl ?_ ?_
+  (refine @inv_of_same _ _ _ (Inv.glob $h) rfl rfl rfl ?_ ?_ rfl
    · (simp only [ctlInv, $hpc:ident, InStart, InStop, Cur] at $hctl:ident ⊢; grind)
    · (simp only [ctlInv, $hpc:ident, atBoundary, InStart, InStop] at $hctl:ident ⊢; grind)))
 
 /-- a controller line that updates a worker or `thread`: all fields by brute force -/
 macro "upd" G:ident hctl:ident hpc:ident : tactic => `(tactic|
-  (obtain ⟨g1, g2, g3, g4, g5, g5', g7, g8, g9⟩ := $G:ident
+  (obtain ⟨g1, g2, g3, g4, g5, g5', g7, g8, g9, g10⟩ := $G:ident
    simp only [ctlInv, $hpc:ident, InStart, InStop, Cur, Act] at $hctl:ident
-   refine Inv.ofGlob ⟨?_, ?_, ?_, ?_, ?_, ?_, ?_, ?_, ?_⟩ ?_ ?_
+   refine Inv.ofGlob ⟨?_, ?_, ?_, ?_, ?_, ?_, ?_, ?_, ?_, g10⟩ ?_ ?_
    all_goals simp only [ctlInv, setW, atBoundary, InStart, InStop, Cur, Act] at g1 g2 g3 g4 g5 g5' g7 g8 g9 ⊢
    all_goals grind))
 
@@ -311,10 +315,15 @@ theorem inv_stepCtl {p : Params} {c : Cfg} (h : Inv p c)
     split
     · pc_only h hctl hpc
     · split
-      · upd G hctl hpc
+      · split
+        · upd G hctl hpc
+        · exfalso; simp only [ctlInv, hpc] at hctl; grind
       · pc_only h hctl hpc
   case bs7 => upd G hctl hpc
-  case bs8 => upd G hctl hpc
+  case bs8 =>
+    split
+    · upd G hctl hpc
+    · exfalso; simp only [ctlInv, hpc] at hctl; grind
   case st9 =>
     simp only [ctlInv, hpc] at hctl
     exact inv_retStart G hctl.2.1 hctl.1 (by grind [Cur]) (fun _ => hctl.2.2)
@@ -343,9 +352,9 @@ theorem inv_stepCtl {p : Params} {c : Cfg} (h : Inv p c)
   case sp13 =>
     simp only [ctlInv, hpc] at hctl
     obtain ⟨hs, k, hk, hcan, hna, hne, hd⟩ := hctl
-    obtain ⟨g1, g2, g3, g4, g5, g5', g7, g8, g9⟩ := G
+    obtain ⟨g1, g2, g3, g4, g5, g5', g7, g8, g9, g10⟩ := G
     refine inv_retStop (p := p) ?G ?hs rfl ?hc
-    case G => refine ⟨?_, g2, g3, g4, g5, ?_, ?_, g8, g9⟩ <;> simp only [] <;> grind
+    case G => refine ⟨?_, g2, g3, g4, g5, ?_, ?_, g8, g9, g10⟩ <;> simp only [] <;> grind
     case hs => simpa [InStop] using hs
     intro k' hk'
     simp only [hcan, Option.some.injEq] at hk'
@@ -360,7 +369,7 @@ theorem inv_stepCtl {p : Params} {c : Cfg} (h : Inv p c)
 theorem inv_init (p : Params) (calls : List Call) : Inv p (init calls) := by
   unfold init enter
   split <;>
-  · refine Inv.ofGlob ⟨?_, ?_, ?_, ?_, ?_, ?_, ?_, ?_, ?_⟩ ?_ ?_
+  · refine Inv.ofGlob ⟨?_, ?_, ?_, ?_, ?_, ?_, ?_, ?_, ?_, ?_⟩ ?_ ?_
     all_goals simp [ctlInv, InStart, InStop, Cur, Act, atBoundary, lastOk]
 
 theorem inv_step {p : Params} {c : Cfg} (t : Tid) (h : Inv p c) (hok : okStep p c t = true) :
@@ -370,6 +379,7 @@ theorem inv_step {p : Params} {c : Cfg} (t : Tid) (h : Inv p c) (hok : okStep p 
   · rename_i hen
     cases t with
     | ctl => exact inv_stepCtl h hen hok
+    | ctl2 => simp [enabled, h.g10] at hen
     | w i => exact inv_stepW i false h hen
     | wx i => exact inv_stepW i true h hen
   · exact h
